@@ -27,7 +27,7 @@
   function of the write and eviction paths over `G` (`Safe ∧ MapOK ∧ CInv`, reusing the
   `_safe` lemmas of `SyncNodes.lean`), the maintenance run (`syncLoop_g`, `syncRun_ctop`),
   the public API over `TInv` (`step_t`), and at the end the corrected capacity oracle
-  `Spec.boundC04Sync'` / `Spec.oracleC04'` with its proof `boundC04SyncGo_run`.
+  `Spec.boundC04Sync` / `Spec.oracleC04` with its proof `boundC04SyncGo_run`.
 -/
 import MiniMoka.Lemmas.SyncNodes
 import MiniMoka.Lemmas.SyncQueues
@@ -2327,44 +2327,7 @@ theorem snapshot_sum (p : Params) (s : SState) (f : EntryView → Nat) :
 end Counters
 end Sync
 
-/-! ### the corrected capacity oracle of the concurrent cache -/
 
-namespace Spec
-
-/-- `boundC04Sync'` with the number `n` of `insert` calls seen so far (an upper bound of the
-number of entries the map holds). -/
-def boundC04SyncGo (cap : Nat) : Nat → Trace → Bool
-  | n, (.snap, .snap mid) :: (.sync, .ok) :: (.snap, .snap after) :: rest =>
-    decide (mid.entries.length ≤ mid.ec + mid.wq + 1) &&
-    (!(after.rq == 0 && after.wq == 0) || decide (snapWeight after ≤ cap) ||
-      decide (after.entries.length + Gen.SYNC_EVICTION_BATCH_SIZE ≤ mid.entries.length)) &&
-    boundC04SyncGo cap n ((.snap, .snap after) :: rest)
-  | n, (.sync, .ok) :: (.snap, .snap after) :: rest =>
-    (!(after.rq == 0 && after.wq == 0) || decide (snapWeight after ≤ cap) ||
-      decide (after.entries.length + Gen.SYNC_EVICTION_BATCH_SIZE ≤ n)) &&
-    boundC04SyncGo cap n ((.snap, .snap after) :: rest)
-  | n, (.snap, .snap sn) :: rest =>
-    decide (sn.entries.length ≤ sn.ec + sn.wq + 1) && boundC04SyncGo cap n rest
-  | n, (.ins _ _, _) :: rest => boundC04SyncGo cap (n + 1) rest
-  | n, _ :: rest => boundC04SyncGo cap n rest
-  | _, [] => true
-
-/-- Concurrent cache, corrected: at every snapshot the map holds at most
-`entry_count + |write queue| + 1` entries; at every snapshot taken right after `sync` with
-both queues empty the residents weigh at most `cap`, unless that maintenance run has
-removed a full eviction batch (`SYNC_EVICTION_BATCH_SIZE` entries): compared with the snapshot
-taken right before the `sync` if there is one, otherwise with the number of `insert` calls so
-far (an upper bound of the number of entries).  Excess can only come from updates that make an
-entry heavier; each maintenance run works it off one batch at a time. -/
-def boundC04Sync' (cap : Nat) (t : Trace) : Bool := boundC04SyncGo cap 0 t
-
-def oracleC04' (kind : Kind) (cap : Option Nat) (t : Trace) : Bool :=
-  match cap, kind with
-  | none, _ => true
-  | some c, .unsync => boundC04 c t
-  | some c, .sync => boundC04Sync' c t
-
-end Spec
 
 namespace Sync
 namespace Counters
